@@ -276,6 +276,13 @@ func (f *File) ReadAt(p []byte, off int64) (int, error) {
 	if n < len(p) {
 		return n, io.EOF
 	}
+	if f.EOFWithData && off+int64(n) == int64(len(f.Data)) {
+		// io.ReaderAt: "If the n = len(p) bytes returned by ReadAt are at
+		// the end of the input source, ReadAt may return either err == EOF
+		// or err == nil."
+		f.X.Fault("readat-eof-with-data")
+		return n, io.EOF
+	}
 	return n, nil
 }
 
